@@ -49,6 +49,10 @@ def cases(tier, seed):
                 continue
             if d["payload"] == "hostile" and c.get("devlevel") is None and nf != 2:
                 continue
+        if c.get("deep"):
+            # seven levels x twelve fields (long FAB headers): single variables, pairs in the thorough tier
+            out.append({"desc": d, "maxlen": 1 if tier == "quick" else 2, "w": 60, "wide": True})
+            continue
         out.append({"desc": d, "maxlen": 3 if tier == "quick" else 4, "w": nf ** 2 * len(d["levels"])})
     # twelve fields: the component count changes its number of digits between input and output
     for nd in (2, 3):
